@@ -60,7 +60,7 @@ def gen_case(seed, tier):
               "split": cfg.choice([0, 1, 2, 3]),      # how many stages live in their own submodule
               "d1": {"edge": cfg.choice(["pos", "neg"]), "period": p1, "phase": ph1},
               "d2": ({"edge": cfg.choice(["pos", "neg"]), "period": p2, "phase": ph2} if two else None),
-              "replace": [p for p in PARTS if fl.random() < 0.3]}
+              "replace": [p for p in PARTS if fl.random() < 0.3], "sample_variant": fl.random() < 0.5}
     doms = ["d1", "d2"] if two else ["d1"]
     ntb = cfg.randint(1, 4)
     twins = ntb >= 2 and cfg.random() < 0.4
@@ -84,7 +84,7 @@ def gen_case(seed, tier):
             elif k == "delay0":
                 ops.append({"k": "delay", "fs": 0})
             elif k == "set":
-                sig = wl.choice(["x", "x", "en"])
+                sig = wl.choice(["x", "x", "en", "wen2"])
                 ops.append({"k": "set", "sig": sig, "v": wl.randrange(1 << w) if sig == "x" else wl.randint(0, 1)})
             elif k == "get":
                 ops.append({"k": "get"})
@@ -132,6 +132,9 @@ class Reference:
         self.en = 1
         self.r1 = 0
         self.r2 = 0
+        self.r3 = 0
+        self.wen2 = 0
+        self.rows = [1, 2, 3, 0]        # memory rows (initial contents as built)
         self.now = 0
         self.tbs = tbs
         self.log = []
@@ -152,7 +155,8 @@ class Reference:
 
     def snapshot(self):
         y1, y2, y3, out = self.comb()
-        return [self.x, self.en, y1, y2, y3, self.r1, self.r2, out]
+        return [self.x, self.en, y1, y2, y3, self.r1, self.r2, out, self.r3, self.rows[self.x & 3] & self.mask] + \
+               [r & self.mask for r in self.rows]
 
     # --- time
     def phase(self, d):
@@ -190,6 +194,8 @@ class Reference:
                 if k == "set":
                     if op["sig"] == "x":
                         self.x = op["v"] & self.mask
+                    elif op["sig"] == "wen2":
+                        self.wen2 = op["v"] & 1
                     else:
                         self.en = op["v"] & 1
                     self.stats["sets"] += 1
@@ -263,6 +269,19 @@ class Reference:
                 r1_new = pre[2][2]
             if dom_of["r2"] in edges_now:
                 r2_new = (pre[0] + pre[1]) & self.mask
+            r3_new = self.r3
+            rows_new = list(self.rows)
+            if "d1" in edges_now:
+                r3_new = (r3_new & 2) | ((self.r3 ^ self.x) & 1)
+                # two write ports on the same edge, always different rows: {0, r1[0]} and {1, r2[0]}
+                if pre[3]:
+                    rows_new[pre[0] & 1] = pre[2][2]
+                if self.wen2:
+                    rows_new[2 | (pre[1] & 1)] = pre[2][0]
+            if dom_of["r2"] in edges_now:
+                r3_new = (r3_new & 1) | (((self.r3 >> 1) ^ pre[3]) & 1) << 1
+            self.r3 = r3_new
+            self.rows = rows_new
             if len(edges_now) == 2:
                 self.stats["coincident_domains"] += 1
             pre_vals = {"r1": self.r1, "r2": self.r2, "out": pre[2][3]}
@@ -315,7 +334,7 @@ class Reference:
 # ====================================================================================================================
 # the real thing
 def build(config):
-    from amaranth.hdl import Module, Signal, Elaboratable, ClockDomain
+    from amaranth.hdl import Module, Signal, Elaboratable, ClockDomain, Cat
     w = config["w"]
     rep = set(config["replace"])
 
@@ -330,6 +349,11 @@ def build(config):
     s.r1 = Signal(w, name="r1")
     s.r2 = Signal(w, name="r2")
     s.out = Signal(w, name="out")
+    s.r3 = Signal(2, name="r3")
+    s.wen2 = Signal(name="wen2")
+    s.md = Signal(w, name="md")
+    from amaranth.lib.memory import Memory
+    s.mem = Memory(shape=w, depth=4, init=[1 & ((1 << w) - 1), 2 & ((1 << w) - 1), 3 & ((1 << w) - 1), 0])
     d2 = "d2" if config["d2"] else "d1"
 
     def stage(name, m):
@@ -360,15 +384,30 @@ def build(config):
                 m.d[d2] += s.r2.eq(s.r1 + s.r2)
             if "out" not in rep:
                 m.d.comb += s.out.eq(s.r1 ^ s.r2 ^ s.y2)
+            # a register whose bits belong to two domains, and a memory with two write ports on one clock
+            m.d.d1 += s.r3[0].eq(s.r3[0] ^ s.x[0])
+            m.d[d2] += s.r3[1].eq(s.r3[1] ^ s.en)
+            m.submodules.mem = s.mem
+            wp0 = s.mem.write_port(domain="d1")
+            wp1 = s.mem.write_port(domain="d1")
+            rp = s.mem.read_port(domain="comb")
+            m.d.comb += [wp0.addr.eq(Cat(s.r1[0], 0)), wp0.data.eq(s.y3), wp0.en.eq(s.en),
+                         wp1.addr.eq(Cat(s.r2[0], 1)), wp1.data.eq(s.y1), wp1.en.eq(s.wen2),
+                         rp.addr.eq(s.x[0:2]), s.md.eq(rp.data)]
             return m
 
     procs = []
     k1, k2 = config["k1"], config["k2"]
     # combinational replacement, docs/simulator.rst "Replacing circuits with code"
     if "s1" in rep:
-        async def p_s1(ctx):
-            async for (xv,) in ctx.changed(s.x):
-                ctx.set(s.y1, xv + k1)
+        if config.get("sample_variant"):
+            async def p_s1(ctx):
+                async for xv, env in ctx.changed(s.x).sample(s.en):      # `en` is sampled but does not influence the result
+                    ctx.set(s.y1, xv + k1)
+        else:
+            async def p_s1(ctx):
+                async for (xv,) in ctx.changed(s.x):
+                    ctx.set(s.y1, xv + k1)
         procs.append(p_s1)
     if "s2" in rep:
         async def p_s2(ctx):
@@ -426,7 +465,8 @@ def simulate(case, order):
         regs = {"r1": s.r1, "r2": s.r2}
 
         def snapshot(ctx):
-            return [ctx.get(v) for v in (s.x, s.en, s.y1, s.y2, s.y3, s.r1, s.r2, s.out)]
+            return [ctx.get(v) for v in (s.x, s.en, s.y1, s.y2, s.y3, s.r1, s.r2, s.out, s.r3, s.md)] + \
+                   [ctx.get(s.mem.data[i]) for i in range(4)]
 
         def conv(v):
             return [x if isinstance(x, bool) else int(x) for x in v]
@@ -438,7 +478,7 @@ def simulate(case, order):
                 for oi, op in enumerate(ops):
                     k = op["k"]
                     if k == "set":
-                        ctx.set(s.x if op["sig"] == "x" else s.en, op["v"])
+                        ctx.set({"x": s.x, "en": s.en, "wen2": s.wen2}[op["sig"]], op["v"])
                         log.append([i, oi, ctx.elapsed_time().femtoseconds, "set", None, snapshot(ctx)])
                         continue
                     if k == "get":
@@ -522,7 +562,7 @@ def run_case(case):
                     oracle = "observed_values"
                 raise Violation(oracle, n, {"order": order, "entry": n, "got": got, "expected": exp,
                                             "fields": "[testbench, op index, time fs, kind, trigger result, "
-                                                      "[x,en,y1,y2,y3,r1,r2,out]]"})
+                                                      "[x,en,y1,y2,y3,r1,r2,out,r3,md,row0..3]]"})
         for j in range(1, len(logs)):
             if logs[j] != logs[0]:
                 raise Violation("differs_between_orders", -1, {"orders": [case["orders"][0], case["orders"][j]]})
